@@ -349,9 +349,19 @@ def menv_coq(rec: Recorder, expr: str, pathway, silent: bool) -> str:
         parse, jsn, cbool(jde), lit, "(Returns tt)"]) + ")")
 
 
+STRING_TAGS = ["shell", "net", "NET", "Capability.NET", "admin", ""]
+
+
+def cap_code(rec, c) -> int:
+    """capability -> model id: enum members by position, free-form string tags from 100"""
+    if isinstance(c, str):
+        return 100 + (STRING_TAGS.index(c) if c in STRING_TAGS else len(STRING_TAGS) + (hash(c) % 50))
+    return rec.caps.index(c)
+
+
 def toolspec_coq(rec: Recorder, t) -> str:
     rc = (getattr(t, "required_capabilities", None) or getattr(t, "capabilities", None) or set())
-    return f"(mkTool {cstring(t.name)} {czl(sorted(rec.caps.index(c) for c in rc))})"
+    return f"(mkTool {cstring(t.name)} {czl(sorted(cap_code(rec, c) for c in rc))})"
 
 
 def allowed_coq(rec: Recorder, allowed) -> str:
